@@ -66,6 +66,9 @@ def _composites():
                                                       geometry=2, name="w")
     def lgn():
         return cuqi.distribution.Lognormal(lambda s: np.array([0.1, 0.2]) * s, np.array([0.5, 0.5]), name="w")
+    def lgn_cov():
+        # the COVARIANCE depends on the hyper-parameter: copies conditioned on different values are used in turn
+        return cuqi.distribution.Lognormal(np.array([0.1, 0.2]), lambda s: s * np.array([0.5, 0.25]), name="w")
     def rgm():
         return cuqi.implicitprior.RegularizedGMRF(np.zeros(3), prec=lambda s: s, constraint="nonnegativity", name="w")
     def lazy_normal():
@@ -89,7 +92,7 @@ def _composites():
         big[::2, ::2] = B
         return cuqi.distribution.Gaussian(lambda s: np.array([0.1, 0.2, 0.3]) * s, sqrtcov=big[::2, ::2], name="w")
     return [("RegularizedGaussian", reg), ("ConstrainedGaussian", con), ("Lognormal", lgn), ("RegularizedGMRF", rgm),
-            ("LazyNormal", lazy_normal), ("LazyLaplace", lazy_laplace),
+            ("LazyNormal", lazy_normal), ("LazyLaplace", lazy_laplace), ("Lognormal.cov", lgn_cov),
             ("Gaussian.sqrtprec.fortran", g_sqrtprec_f), ("Gaussian.cov.fortran", g_cov_f), ("Gaussian.prec.csc", g_prec_sparse),
             ("Gaussian.sqrtcov.view", g_sqrtcov_view)]
 
@@ -122,7 +125,9 @@ def _probe_composite(o):
 
 
 def _mutate(o):
-    """the user assigns a parameter of a derived copy; returns the attribute name or None"""
+    """the user assigns EVERY parameter of an object (numbers shifted by one, functions replaced by the shifted function);
+    returns the names of the attributes assigned, or None if there was none"""
+    done = []
     for var in o.get_mutable_variables():
         try:
             val = getattr(o, var)
@@ -139,18 +144,22 @@ def _mutate(o):
                     continue
                 names = list(cuqi.utilities.get_non_default_args(val))
                 setattr(o, var, jg._named_lambda(names, lambda *a, _f=val: np.asarray(_f(*a), dtype=float) + 1.0))
-                return var
+                done.append(var)
             except Exception:
-                continue
+                pass
+            continue
         try:
             a = np.asarray(val, dtype=float)
         except Exception:
             continue
         if a.ndim > 1:
             continue
-        setattr(o, var, a + 1.0)
-        return var
-    return None
+        try:
+            setattr(o, var, a + 1.0)
+            done.append(var)
+        except Exception:
+            continue
+    return done or None
 
 
 class Pool:
